@@ -246,8 +246,13 @@ class StreamSys(System):
         det = state["det"]
         x = float(ev)
         seed = rng.seed_step(ctx.seed, cfg["id"], pos)
+        arr = np.array([[x]])
+        if cfg.get("int_when_integral") and x == int(x):
+            # integer-typed samples interleaved with float ones: the same numbers in another container dtype
+            arr = np.array([[int(x)]])
+            ctx.count("integer_typed_samples")
         try:
-            det.update(np.array([[x]]))
+            det.update(arr)
         except Exception as e:
             raise Violation("raises", "update(%r) raised %r" % (x, e), observed=repr(e))
         obs = stream_obs(det)
@@ -365,6 +370,16 @@ def tasks(tier, seed):
                         "validate_every": 101,
                         "label": "KdqTreeStreaming|%s|%d" % (cfg["id"], first), "cost": 20,
                     })
+    # streaming, window_size 2, mixed dtypes: integral values arrive as integer arrays, the others as floats
+    mixed = [0, 1.5, 0.6, 5]  # 0.6 lies between the midpoints of (0, 1.5) and of its integer truncation (0, 1)
+    for p in (0, 0.5):
+        cfg = {"id": "s-w2-mixed-p%g" % p, "w": 2, "persistence": p, "alpha": 0.6, "B": 10, "ub": 1, "values": mixed,
+               "full_df": True, "int_when_integral": True}
+        for first in mixed:
+            out.append({
+                "system": "KdqTreeStreaming", "cfg": cfg, "prefix": [first], "depth": (9 if tier == "quick" else 11) - 1,
+                "validate_every": 101, "label": "KdqTreeStreaming|%s|%s" % (cfg["id"], first), "cost": 10,
+            })
     # streaming, window_size 3 and 4: default history with <= k deviations
     for w in (3, 4):
         for p in PERSISTENCE:
@@ -381,6 +396,7 @@ def tasks(tier, seed):
 
 
 REQUIRED = [
+    "integer_typed_samples",
     "drift_transitions",
     "decisions_above",
     "decisions_at_or_below",
